@@ -12,7 +12,7 @@ namespace C18
 
 theorem never_hides_news :
     ∀ (adv : Option Nat) (cci : Nat) (pending : Bool),
-    adv = none ∨ (∃ k, adv = some k ∧ k < cci) ∨ pending = true → reportIncomplete adv cci pending = false :=
+      adv = none ∨ (∃ k, adv = some k ∧ k < cci) ∨ pending = true → reportIncomplete adv cci pending = false :=
   @_root_.Drummer.never_hides_news
 
 theorem incomplete_when_current :
@@ -21,35 +21,35 @@ theorem incomplete_when_current :
 
 theorem report_lists_everything :
     ∀ (addr api : String) (locals : List LocalShard) (adv : List (Nat × Nat)) (li : Bool)
-    (log : List LogInfo),
-    (agentReport addr api locals adv li log).shardIdList = List.map (fun x => x.shardId) locals ∧
-    List.map (fun i => (i.shardId, i.replicaId, i.cci, i.pending)) (agentReport addr api locals adv li log).shardInfo =
-    List.map (fun l => (l.shardId, l.replicaId, l.cci, l.pending)) locals :=
+      (log : List LogInfo),
+      (agentReport addr api locals adv li log).shardIdList = List.map (fun x => x.shardId) locals ∧
+        List.map (fun i => (i.shardId, i.replicaId, i.cci, i.pending)) (agentReport addr api locals adv li log).shardInfo =
+          List.map (fun l => (l.shardId, l.replicaId, l.cci, l.pending)) locals :=
   @_root_.Drummer.report_lists_everything
 
 theorem report_never_hides_news :
     ∀ (addr api : String) (locals : List LocalShard) (adv : List (Nat × Nat)) (li : Bool)
-    (log : List LogInfo) (l : LocalShard),
-    l ∈ locals →
-    Option.map (fun x => x.snd) (List.find? (fun x => x.fst == l.shardId) adv) = none ∨
-    (∃ k, Option.map (fun x => x.snd) (List.find? (fun x => x.fst == l.shardId) adv) = some k ∧ k < l.cci) ∨
-    l.pending = true →
-    ∃ i,
-    i ∈ (agentReport addr api locals adv li log).shardInfo ∧
-    i.shardId = l.shardId ∧ i.replicaId = l.replicaId ∧ i.incomplete = false ∧ i.replicas = l.members :=
+      (log : List LogInfo) (l : LocalShard),
+      l ∈ locals →
+        Option.map (fun x => x.snd) (List.find? (fun x => x.fst == l.shardId) adv) = none ∨
+            (∃ k, Option.map (fun x => x.snd) (List.find? (fun x => x.fst == l.shardId) adv) = some k ∧ k < l.cci) ∨
+              l.pending = true →
+          ∃ i,
+            i ∈ (agentReport addr api locals adv li log).shardInfo ∧
+              i.shardId = l.shardId ∧ i.replicaId = l.replicaId ∧ i.incomplete = false ∧ i.replicas = l.members :=
   @_root_.Drummer.report_never_hides_news
 
 theorem loginfo_iff_announced :
     ∀ (addr api : String) (locals : List LocalShard) (adv : List (Nat × Nat)) (li : Bool)
-    (log : List LogInfo),
-    (agentReport addr api locals adv li log).plogIncluded = li ∧ (agentReport addr api locals adv li log).plogInfo = log :=
+      (log : List LogInfo),
+      (agentReport addr api locals adv li log).plogIncluded = li ∧ (agentReport addr api locals adv li log).plogInfo = log :=
   @_root_.Drummer.loginfo_iff_announced
 
 theorem dispatch_once_in_order :
     ∀ (reqs : List Request),
-    (∀ (r : Request), r ∈ reqs → ∃ w, w ∈ dispatch reqs ∧ w.fst = r.shardId ∧ r ∈ w.snd) ∧
-    ∀ (w : Nat × List Request),
-    w ∈ dispatch reqs → w.snd = List.filter (fun x => x.shardId == w.fst) reqs ∧ List.Sublist w.snd reqs :=
+      (∀ (r : Request), r ∈ reqs → ∃ w, w ∈ dispatch reqs ∧ w.fst = r.shardId ∧ r ∈ w.snd) ∧
+        ∀ (w : Nat × List Request),
+          w ∈ dispatch reqs → w.snd = List.filter (fun x => x.shardId == w.fst) reqs ∧ List.Sublist w.snd reqs :=
   @_root_.Drummer.dispatch_spec
 
 theorem dispatch_keys_nodup :
@@ -58,30 +58,30 @@ theorem dispatch_keys_nodup :
 
 theorem restore_request_restarts_from_data :
     ∀ (l : Loop) (h : Host) (r : Request) (ap : Int),
-    Host.run? h r.shardId = none →
-    r.restore = true →
-    r.join = false →
-    Host.dataGet h r.shardId r.instantiateReplicaId = some ap →
-    Loop.execCreate l h r =
-    Loop.setHost l (Host.setRun h { shard := r.shardId, id := r.instantiateReplicaId, applied := ap }) :=
+      Host.run? h r.shardId = none →
+        r.restore = true →
+          r.join = false →
+            Host.dataGet h r.shardId r.instantiateReplicaId = some ap →
+              Loop.execCreate l h r =
+                Loop.setHost l (Host.setRun h { shard := r.shardId, id := r.instantiateReplicaId, applied := ap }) :=
   @_root_.Drummer.execCreate_restore_runs
 
 theorem join_request_starts_replica :
     ∀ (l : Loop) (h : Host) (r : Request),
-    Host.run? h r.shardId = none →
-    r.join = true →
-    ∃ h',
-    Loop.execCreate l h r = Loop.setHost l h' ∧
-    Host.run? h' r.shardId =
-    some
-    { shard := r.shardId, id := r.instantiateReplicaId,
-    applied := Option.getD (Host.dataGet h r.shardId r.instantiateReplicaId) (-1) } :=
+      Host.run? h r.shardId = none →
+        r.join = true →
+          ∃ h',
+            Loop.execCreate l h r = Loop.setHost l h' ∧
+              Host.run? h' r.shardId =
+                some
+                  { shard := r.shardId, id := r.instantiateReplicaId,
+                    applied := Option.getD (Host.dataGet h r.shardId r.instantiateReplicaId) (-1) } :=
   @_root_.Drummer.execCreate_join_runs
 
 theorem code_incomplete_condition :
     ∀ (k cci : Nat) (pending : Bool),
-    Gen.agent_incomplete true k cci pending = reportIncomplete (some k) cci pending ∧
-    Gen.agent_incomplete false k cci pending = reportIncomplete none cci pending :=
+      Gen.agent_incomplete true k cci pending = reportIncomplete (some k) cci pending ∧
+        Gen.agent_incomplete false k cci pending = reportIncomplete none cci pending :=
   @_root_.Drummer.bridge_agentIncomplete
 
 end C18
